@@ -1677,7 +1677,6 @@ def read_index(file, name, index, tindex, stop=b'\377' * 8,
 
         if tid <= ltid:
             logger.warning("%s time-stamp reduction at %s", name, pos)
-        ltid = tid
 
         if pos + (tl + 8) > file_size or status == 'c':
             # Hm, the data were truncated or the checkpoint flag wasn't
@@ -1717,6 +1716,10 @@ def read_index(file, name, index, tindex, stop=b'\377' * 8,
                 if recover:
                     return pos, None, None
                 panic('%s has invalid transaction header at %s', name, pos)
+
+        # Only now is this a transaction of the file: a truncated or
+        # unfinished one above must not be reported as the last transaction.
+        ltid = tid
 
         if tid >= stop:
             break
